@@ -124,6 +124,10 @@ def run(ctx: Ctx):
     # a routing record of a lost connection must not be inherited by the peer's next
     # connection ("answered exactly as on a fresh node")
     waiting_table_keys(ctx, "C14-R7")
+    # a handshake message still being handled while the connection is torn down must not
+    # resurrect it as the peer's ready connection (the peer would never be dialled again)
+    from .common_node import ready_state_stores
+    ready_state_stores(ctx, "C14-R8")
 
 
 def _origin_tag(chain: list[str]) -> str:
